@@ -75,6 +75,7 @@ func NewChannel(ctx context.Context, pollRate time.Duration, source interface{})
 func (c *Channel) Buffer() []interface{} {
 	c.ensure()
 
+	verifAt("channel.buffer.lock", c, 0)
 	c.mutex.Lock()
 	defer c.mutex.Unlock()
 
@@ -98,6 +99,7 @@ func (c *Channel) Close() error {
 		closeErr = nil
 
 		// synchronisation is required to avoid racing on Get
+		verifAt("channel.close.lock", c, 0)
 		c.mutex.Lock()
 		defer c.mutex.Unlock()
 
@@ -139,6 +141,7 @@ func (c *Channel) Get(ctx context.Context) (value interface{}, err error) {
 		// attempt a get, returns true if we exit this iteration
 		if func() bool {
 			// synchronise - we will break the state otherwise
+			verifAt("channel.get.lock", c, 0)
 			c.mutex.Lock()
 			defer c.mutex.Unlock()
 
@@ -179,12 +182,14 @@ func (c *Channel) Get(ctx context.Context) (value interface{}, err error) {
 			defer ticker.Stop()
 		}
 
+		verifAt("channel.get.tw0", c, 0)
 		select {
 		case <-ticker.C:
 			// tick triggers the next iteration
 		case <-c.ctx.Done():
 			// as does a context cancel (which will bail out next iteration)
 		}
+		verifAt("channel.get.tw1", c, 0)
 	}
 }
 
@@ -197,6 +202,7 @@ func (c *Channel) pending() int {
 func (c *Channel) Commit() error {
 	c.ensure()
 
+	verifAt("channel.commit.lock", c, 0)
 	c.mutex.Lock()
 	defer c.mutex.Unlock()
 
@@ -226,6 +232,7 @@ func (c *Channel) Commit() error {
 func (c *Channel) Rollback() error {
 	c.ensure()
 
+	verifAt("channel.rollback.lock", c, 0)
 	c.mutex.Lock()
 	defer c.mutex.Unlock()
 
@@ -250,5 +257,6 @@ func (c *Channel) ensure() {
 
 func (c *Channel) cleanup() {
 	defer c.Close()
+	verifAt("channel.cleanup.recv", c, 0)
 	<-c.ctx.Done()
 }
